@@ -3,6 +3,7 @@ package c04
 
 import (
 	"archive/tar"
+	v1 "github.com/google/go-containerregistry/pkg/v1"
 	"io/fs"
 	"os"
 	"path"
@@ -452,6 +453,32 @@ func VerifRequirer() {
 	for _, p := range universe[:nUni] {
 		req.bits[p] = verifrt.Bool("required")
 	}
+	// history: none / one metadata-only (empty-layer) entry after the last layer / one before it.
+	// views[k] = index of the last real layer applied in chain view k.
+	var views []int
+	switch verifrt.Choice("history", 3) {
+	case 0:
+		for i := range sizes {
+			views = append(views, i)
+		}
+	case 1:
+		for i := range sizes {
+			img.History = append(img.History, v1.History{CreatedBy: "layer"})
+			views = append(views, i)
+		}
+		img.History = append(img.History, v1.History{CreatedBy: "ENV x=y", EmptyLayer: true})
+		views = append(views, len(sizes)-1)
+		verifrt.Reach("trailing-empty-history-entry")
+	case 2:
+		for i := range sizes {
+			if i == len(sizes)-1 {
+				img.History = append(img.History, v1.History{CreatedBy: "ENV x=y", EmptyLayer: true})
+				views = append(views, i-1)
+			}
+			img.History = append(img.History, v1.History{CreatedBy: "layer"})
+			views = append(views, i)
+		}
+	}
 	cfg := image.DefaultConfig()
 	cfg.MaxFileBytes = 1 << 20
 	cfg.Requirer = req
@@ -461,11 +488,19 @@ func VerifRequirer() {
 		return
 	}
 	chain, _ := out.ChainLayers()
+	verifrt.Assert(len(chain) == len(views), "one view per layer and per history-only entry")
+	if len(chain) != len(views) {
+		return
+	}
 	state := map[string]*onode{}
-	for i := range sizes {
-		apply(state, specs[i], i)
-		fsys := chain[i].FS()
-		final := i == len(sizes)-1
+	applied := -1
+	for k, upto := range views {
+		for applied < upto {
+			applied++
+			apply(state, specs[applied], applied)
+		}
+		fsys := chain[k].FS()
+		final := k == len(views)-1
 		for p, n := range state {
 			if n.kind != kReg {
 				continue
@@ -485,6 +520,11 @@ func VerifRequirer() {
 			verifrt.Assert(verifrt.Iff(err == nil, want), "with a file requirer a regular file is in the final view iff it is required (or the target of a required symlink); earlier views are unchanged: "+p)
 			if err == nil {
 				verifrt.Assert(info.Size() == n.size, "a required file keeps its size: "+p)
+				if f, oerr := fsys.Open(p); oerr != nil {
+					verifrt.Fail("a file present in a view can be opened: " + p)
+				} else {
+					f.Close()
+				}
 				verifrt.Reach("kept")
 			} else {
 				verifrt.Reach("pruned")
